@@ -38,6 +38,7 @@ pub const REDEFINE_AS_PART: &str = "E033";
 pub const START_AS_PART: &str = "E034";
 pub const CREATE_NODE_IN_ORDERED_CHOICE: &str = "E035";
 pub const RETURN_IN_ORDERED_CHOICE: &str = "E036";
+pub const RETURN_WITHOUT_TOKEN: &str = "E037";
 
 pub const UNUSED_RULE: &str = "W001";
 pub const UNUSED_TOKEN: &str = "W002";
@@ -91,6 +92,7 @@ pub trait LanguageErrors {
     fn start_as_part(span: &Span) -> Self;
     fn create_node_in_ordered_choice(span: &Span) -> Self;
     fn return_in_ordered_choice(span: &Span) -> Self;
+    fn return_without_token(span: &Span) -> Self;
 }
 
 impl LanguageErrors for Diagnostic {
@@ -460,6 +462,17 @@ impl LanguageErrors for Diagnostic {
             .with_note(
                 "note: the rule cannot be left from an alternative that can still be abandoned, \
                  commit before the return or move it out of the ordered choice",
+            )
+    }
+
+    fn return_without_token(span: &Span) -> Self {
+        Diagnostic::error()
+            .with_code(RETURN_WITHOUT_TOKEN)
+            .with_message("return could be used before the rule has consumed a token")
+            .with_label(Label::primary((), span.clone()))
+            .with_note(
+                "note: a rule that returns without consuming a token makes a repetition \
+                 that contains it loop forever, place the return after a token",
             )
     }
 }
